@@ -1,4 +1,5 @@
 import NpsVerif.Gen.BridgeTac
+set_option linter.unusedVariables false
 namespace Gen.Bridge
 /-- reachable domain of K2: `assert col_slice.step > 0`, row lengths are non-negative -/
 theorem pos_col_slice_bridge (len start0 cstep : Int) (a b : Option Int) (s : Int) (hl : 0 ≤ len) (hs : 0 < s) :
